@@ -478,7 +478,7 @@ def r19_f(ctx):
 
 def r06_b_tokens(ctx):
     t = table(ctx)
-    rr = interp_findings(ctx, ('none-deref',), 'R06.b', 'no attribute of a peek result is read where the peek may '
+    rr = interp_findings(ctx, ('none-deref',), 'R06.b-tok', 'no attribute of a peek result is read where the peek may '
                          'return None (end of input)')
     rr.instances += len(t.deref_sites)
     rr.discharged += len(t.deref_sites) - len(rr.findings)
